@@ -162,6 +162,54 @@ func genPools(repo string) {
 		fmt.Fprintf(&b, "  { func := %s, loopCond := %s, incs := %d, exits := %d, guard := %s, refillIdx := %s, initBound := %s, initIdx := %s, clamp := %s }%s\n",
 			leanStr(pl.fn), leanStr(pl.cond), pl.incs, pl.exits, leanStr(pl.guard), leanStrList(pl.idx), leanStr(pl.initBound), leanStrList(pl.initIdx), leanStr(pl.clamp), sep)
 	}
-	b.WriteString("]\n\nend LuaHelper.Gen\n")
+	b.WriteString("]\n\n")
+	// the per-project second pass: the methods of AllProject the WORKER (checkOneProject) calls, and the ones the
+	// coordinator (handleProjectEntryFileVec) calls after its receive loop — handleOtherFileInsertSub writes the member
+	// tables of first-pass symbols that all projects share, so it belongs to the second list
+	methodCalls := func(stmts []ast.Stmt) []string {
+		var out []string
+		for _, st := range stmts {
+			ast.Inspect(st, func(n ast.Node) bool {
+				if c, ok := n.(*ast.CallExpr); ok {
+					if se, ok := c.Fun.(*ast.SelectorExpr); ok {
+						if id, ok := se.X.(*ast.Ident); ok && id.Name == "a" {
+							out = append(out, se.Sel.Name)
+						}
+					}
+				}
+				return true
+			})
+		}
+		return out
+	}
+	var workerCalls, afterLoopCalls []string
+	foundW, foundC := false, false
+	for _, fd := range p.allFuncs() {
+		if fd.Body == nil {
+			continue
+		}
+		switch fd.Name.Name {
+		case "checkOneProject":
+			foundW = true
+			workerCalls = methodCalls(fd.Body.List)
+		case "handleProjectEntryFileVec":
+			foundC = true
+			after := false
+			for _, st := range fd.Body.List {
+				if fs, ok := st.(*ast.ForStmt); ok && strings.Contains(exprText(fs.Cond), "recvNum") {
+					after = true
+					continue
+				}
+				if after {
+					afterLoopCalls = append(afterLoopCalls, methodCalls([]ast.Stmt{st})...)
+				}
+			}
+		}
+	}
+	if !foundW || !foundC {
+		fail("checkOneProject / handleProjectEntryFileVec not found")
+	}
+	b.WriteString("/-- methods of AllProject called by the second-pass WORKER checkOneProject, in source order -/\ndef secondPassWorkerCalls : List String := " + leanStrList(workerCalls) + "\n\n")
+	b.WriteString("/-- methods of AllProject called by handleProjectEntryFileVec AFTER its receive loop (all workers have reported) -/\ndef secondPassAfterLoopCalls : List String := " + leanStrList(afterLoopCalls) + "\n\nend LuaHelper.Gen\n")
 	write("Pools.lean", b.String())
 }
